@@ -42,17 +42,32 @@ IMPORTS = {
             ('C15', None, 'parse and re-serialisation derive newline / BOM from these tables: the bytes differ after the cycle for the '
              'affected encodings'),
             ('C16', None, 'indentation is removed and re-added per line of split_lines: the bytes differ after the cycle')],
+    'C07': [('C10', ('C10-R7',), 'the object-model entry points must hand the caller\'s bytes to the parser unchanged: input that is '
+             'repaired first (a newline appended to a cut file) makes a truncated file yield a section the intact file does not have')],
     'C08': [('C17', ('C17-R3', 'C17-R7'), 'end of input and over-long lines must be told apart by the read-ahead helper: otherwise input is '
              'silently dropped instead of being reported as a parse error')],
-    'C10': [('C17', None, 'section ids are read from header lines delivered by the read-ahead helper: a line lost or merged at a chunk '
+    'C10': [('C08', ('C08-R1b',), 'an order the hierarchy forbids must be rejected *with a parse error*: a rejection by the streaming reader '
+             'that surfaces from the object-model load as another exception is not that'),
+            ('C17', None, 'section ids are read from header lines delivered by the read-ahead helper: a line lost or merged at a chunk '
              'boundary makes a legal order rejected or an illegal one accepted')],
-    'C11': [('C17', None, 'the header grammar is applied to the line the read-ahead helper returns: a terminator missed at a chunk boundary '
+    'C11': [('C06', ('C06-R3',), 'accepted options are reported verbatim - also by the object-model load, which must store what the header '
+             'parser accepted (minus length) and nothing else'),
+            ('C17', None, 'the header grammar is applied to the line the read-ahead helper returns: a terminator missed at a chunk boundary '
              'changes which lines are accepted')],
-    'C12': [('C17', None, 'unknown options make header lines long: a line that straddles a read chunk must come back whole, or the options '
+    'C12': [('C06', ('C06-R3',), 'the object-model load must carry every option of the header (minus length) into the section: a filter or '
+             'a merge there drops or overrides unknown options'),
+            ('C03', ('C03-R2',), 'an option a section kind does not know (indent on a meta or diff section) must change nothing: it is '
+             'interpreted only where the per-kind table says so'),
+            ('C17', None, 'unknown options make header lines long: a line that straddles a read chunk must come back whole, or the options '
              'delivered differ')],
     'C13': [('C14', None, 'the statistics are the totals of the hunk parser: wrong geometry / totals / tolerated garbage give wrong counts'),
             ('C16', None, 'the hunk parser is fed the lines of split_lines: lost or fabricated lines change the counts')],
-    'C15': [('C03', ('C03-R3',), 'indentation must be removed per line of the split on the codec\'s own newline: a pattern applied to the '
+    'C15': [('C01', ('C01-R4w',), 'text is encoded once, as a whole: encoding it line by line makes a BOM-emitting codec put a byte-order mark '
+             'on every line, so the bytes are not "the text in that codec" whatever the spelling'),
+            ('C02', ('C02-R13',), 'the same, on the writer\'s header/content path (strict whole encode)'),
+            ('C13', ('C13-R8',), 'statistics must see the lines of the diff bytes split on the codec\'s newline, not str.splitlines() of a decoded '
+             'copy, which also breaks at other terminators'),
+            ('C03', ('C03-R3',), 'indentation must be removed per line of the split on the codec\'s own newline: a pattern applied to the '
              'whole content takes the raw byte 0x0A for a line start, which is not the newline of UTF-16/32 or EBCDIC codecs')],
     'C19': [('C06', ('C06-R4',), 'serialising a tree edits its options: typed attributes read afterwards, and equality with an equal tree '
              'that was not serialised, change')],
